@@ -355,6 +355,8 @@ def main(argv):
         rc = None
         if isinstance(r.get("replay"), dict):
             rc = r["replay"].get("case")
+            for k, v in (r["replay"].get("env") or {}).items():  # e.g. VERIF_REPLAY_PFOR of a watchdog abort
+                os.environ[k] = str(v)
         if rc is None:
             rc = r["key"]
         return run_check(r["property"], r.get("tier", "quick"), replay_case=rc)
